@@ -20,10 +20,10 @@ static void xc_havoc_ghosts(void) { size_t a; unsigned long b, c; g_k = a; g_del
 post_struct_c = r"""
 /* std::atomic<T>::compare_exchange_weak / _strong on a plain field (sequential semantics): the weak form may fail spuriously */
 static bool xc_cas_weak_u64(unsigned long *obj, unsigned long *expected, unsigned long desired)
-{ bool spurious; g_cas_calls++; if (*obj == *expected && !spurious) { *obj = desired; return true; } *expected = *obj; return false; }
+{ bool spurious, r; __CPROVER_atomic_begin(); g_cas_calls++; if (*obj == *expected && !spurious) { *obj = desired; r = true; } else { *expected = *obj; r = false; } __CPROVER_atomic_end(); return r; }
 static bool xc_cas_weak_ptr(int **obj, int **expected, int *desired)
-{ bool spurious; g_cas_calls++; if (*obj == *expected && !spurious) { *obj = desired; return true; } *expected = *obj; return false; }
-static int *xc_xchg_ptr(int **obj, int *desired) { int *old = *obj; *obj = desired; return old; }
+{ bool spurious, r; __CPROVER_atomic_begin(); g_cas_calls++; if (*obj == *expected && !spurious) { *obj = desired; r = true; } else { *expected = *obj; r = false; } __CPROVER_atomic_end(); return r; }
+static int *xc_xchg_ptr(int **obj, int *desired) { __CPROVER_atomic_begin(); int *old = *obj; *obj = desired; __CPROVER_atomic_end(); return old; }
 static void xc_delete_int(int *p) { if (p != NULL) { g_deleted++; g_deleted_last = p; } }
 """
 
@@ -115,9 +115,90 @@ proofs = [
     Proof("AtomicUniquePtr_SwapIfNull", [("AtomicUniquePtr<int>::SwapIfNull", 1)], enforce="AtomicUniquePtr_int_SwapIfNull", timeout=300),
     Proof("AtomicUniquePtr_Swap", [("AtomicUniquePtr<int>::Swap", 1)], enforce="AtomicUniquePtr_int_Swap", timeout=300),
     Proof("AtomicUniquePtr_Reset", [("AtomicUniquePtr<int>::Reset", 1)], enforce="AtomicUniquePtr_int_Reset", timeout=300),
-    Proof("CircularBuffer_Add", [("CircularBuffer<int>::Add", 1, "std::unique_ptr<int> &)")], enforce=ADD, timeout=900),
 ]
-trusted = ()
-assumptions = ()
-not_covered = ()
-refuters = {}
+# CircularBuffer::Add with the capacity fixed (max_size 0..3, the buffer sizes the property quantifies over: "buffers of capacity 1..3"): with a
+# symbolic capacity the five 64-bit remainder circuits (head % capacity_ in code, precondition, postcondition and invariant) did not finish
+# (> 900 s on minisat2 and cadical); head, tail, the slot contents and the number of spurious compare-exchange failures stay arbitrary
+import copy as _copy
+for _cap in (1, 2, 3, 4):
+    _ct = _copy.deepcopy(contracts[ADD])
+    _ct["pre"] = _ct["pre"].replace("self->capacity_ >= 1 && self->capacity_ <= XC_MAXCAP", "self->capacity_ == %d" % _cap)
+    _p = Proof("CircularBuffer_Add_cap%d" % _cap, [("CircularBuffer<int>::Add", 1, "std::unique_ptr<int> &)")], enforce=ADD, timeout=600,
+               contracts={ADD: _ct}, desc="Add on a buffer with max_size %d (capacity_ = %d slots), any head/tail/slot contents, any number of spurious weak-CAS failures" % (_cap - 1, _cap))
+    proofs.append(_p)
+
+# ---- SpinLockMutex (api/include/opentelemetry/common/spin_lock_mutex.h), one call seen alone ------------------------------------------------
+TU_SL = ("tu_spin_lock", '#include "opentelemetry/common/spin_lock_mutex.h"\n')
+
+
+def _configure_sl(cfg):
+    for pre in ("std::atomic::", "std::__atomic_base::", "std::atomic<bool>::"):
+        cfg.ext_methods[pre + "load"] = lambda em, recv, args, n: recv
+        cfg.ext_methods[pre + "exchange"] = lambda em, recv, args, n: "xc_xchg_bool(&(%s), %s)" % (recv, em.expr(args[0]))
+        cfg.ext_methods[pre + "store"] = lambda em, recv, args, n: "(%s = %s)" % (recv, em.expr(args[0]))
+    cfg.ext["__builtin_ia32_pause"] = lambda em, node, recv, args: "(void)0"
+    cfg.ext["_mm_pause"] = lambda em, node, recv, args: "(void)0"
+    cfg.ext["yield"] = lambda em, node, recv, args: "(void)0"
+    cfg.ext["sleep_for"] = lambda em, node, recv, args: "(void)0"
+    cfg.ctor_ext["std::chrono::duration"] = lambda em, node, args: "0"
+
+
+SL_POST = "static bool xc_xchg_bool(bool *obj, bool desired) { bool old = *obj; *obj = desired; return old; }\n"
+contracts_sl = {
+    # try_lock succeeds only on a free lock, and then holds it; a held lock stays held
+    "SpinLockMutex_try_lock": {"pre": "__CPROVER_requires(__CPROVER_is_fresh(self, sizeof(*self)))\n__CPROVER_assigns(self->flag_)\n"
+        "__CPROVER_ensures(__CPROVER_return_value == !__CPROVER_old(self->flag_) && self->flag_)\n"},
+    "SpinLockMutex_unlock": {"pre": "__CPROVER_requires(__CPROVER_is_fresh(self, sizeof(*self)))\n__CPROVER_assigns(self->flag_)\n__CPROVER_ensures(!self->flag_)\n"},
+    # lock() seen alone (no other thread releases): if it returns, the lock was free and is now held (on a held lock it spins: partial correctness)
+    "SpinLockMutex_lock": {"pre": "__CPROVER_requires(__CPROVER_is_fresh(self, sizeof(*self)))\n__CPROVER_assigns(self->flag_)\n"
+        "__CPROVER_ensures(self->flag_ && !__CPROVER_old(self->flag_))\n",
+        "loops": {1: "__CPROVER_assigns(self->flag_)\n__CPROVER_loop_invariant(!self->flag_ == !__CPROVER_loop_entry(self->flag_))\n",
+                  2: "__CPROVER_assigns(i, self->flag_)\n__CPROVER_loop_invariant(self->flag_ && __CPROVER_loop_entry(self->flag_))\n"}},
+}
+proofs_sl = [
+    Proof("SpinLock_try_lock", [("SpinLockMutex::try_lock", 0)], enforce="SpinLockMutex_try_lock", timeout=300),
+    Proof("SpinLock_unlock", [("SpinLockMutex::unlock", 0)], enforce="SpinLockMutex_unlock", timeout=300),
+    Proof("SpinLock_lock", [("SpinLockMutex::lock", 0)], enforce="SpinLockMutex_lock", replace=["SpinLockMutex_try_lock"], timeout=300),
+]
+for _p in proofs_sl:
+    _p.tu = TU_SL
+    _p.post_struct_c = SL_POST
+    _p.configure = _configure_sl
+    _p.own_config = True
+    _p.contracts = contracts_sl
+proofs += proofs_sl
+
+# A bounded thread harness (two producers racing on Add under CBMC's interleaving semantics) was built on the extracted text and is NOT part of
+# the check: cbmc 6.11 stops with "pointer handling for concurrency is unsound" because the extracted functions reach the shared buffer through
+# pointer parameters (self, the caller's unique_ptr). The interleaving half of C11 therefore has no stand-in at all.
+trusted = ("std::atomic<T> fields laid out as plain T: each call is verified as if it ran alone (sequential semantics)",
+           "compare_exchange_weak = compare-and-set that may also fail spuriously (nondeterministic); exchange / load / store as plain accesses",
+           "std::unique_ptr<T> as a plain pointer with a ghost deletion counter; delete = one counted deletion")
+assumptions = (
+    "SEQUENTIAL semantics: the contracts state what one call of Add / SwapIfNull / Swap / Reset / try_lock / lock / unlock does when no other thread interferes "
+    "(including any number of spurious failures of the weak compare-exchange). The statement of C11 proper - every interleaving of producers and a consumer, "
+    "mutual exclusion of the spin lock between threads, lock() returning once the holder unlocks - is NOT decided by these contracts",
+    "CircularBuffer::Add is proved for max_size 0..3 (capacity_ 1..4; the property speaks of capacities 1..3) with arbitrary head/tail/slot contents; a symbolic capacity did not finish",
+    "no stand-in for the interleaving half: cbmc's thread mode rejects the extracted code ('pointer handling for concurrency is unsound')",
+)
+not_covered = ("every interleaving of producers and consumer (exactly-once consumption, per-producer order)", "Consume / Peek / CircularBufferRange", "memory-order (acquire/release) reasoning",
+               "mutual exclusion and progress of SpinLockMutex between threads")
+DRIVER = ("c11_native", ["c11_native.cc"])
+
+
+def refute_search(mod, proof, violations, ix, workdir, seed):
+    """directed native search, one thread: every sequence of up to 7 Add / Consume(1) / Clear operations on the real CircularBuffer of max_size 1..3
+    against a queue model with instance counting; spin lock try_lock/lock/unlock"""
+    import os, re as _re, subprocess
+    binpath = R.build_native(DRIVER[0], [os.path.join(R.core.HERE, "replay", s) for s in DRIVER[1]], ["-O1"])
+    full = subprocess.run([binpath, "search"], stdout=subprocess.PIPE, stderr=subprocess.STDOUT, text=True, timeout=300).stdout
+    m = _re.findall(r"^FOUND (.*)$", full, _re.M)
+    if not m:
+        return None
+    args = m[-1].split()
+    r = R.native_check(DRIVER[0], DRIVER[1], args, ["-O1"])
+    r["input"] = {"driver_args": args, "meaning": "seq <max_size> <ops: a Add(ptr&), m Add(ptr&&), c Consume(1), k Clear> | spin", "found_by": "directed native search (refute mode)"}
+    return r if r["reproduced"] else None
+
+
+refuters = {p.name: refute_search for p in proofs}
